@@ -58,6 +58,19 @@ def _run_task(arg):
             cfg.oblig_timeout_ms = 60000
         from .engine import Explorer
 
+        if getattr(c, "static_only", False):
+            import hashlib
+            import time as _t
+
+            from contracts.C06_cache import run_effects
+
+            t0 = _t.time()
+            results, rs = run_effects(key)
+            obs = [{"name": f"{pid}/invalidate-on-write/{k}", "kind": "static", "status": "discharged" if ok else "failed", "time": 0.0, "backend": "ast-paths",
+                    "detail": d, "path": [], "model": None} for k, ok, d in results]
+            return {"name": f"{pid}/{key}", "target": key, "status": "ok", "message": "", "obligations": obs, "paths": len(obs), "solver_time": 0.0,
+                    "wall": _t.time() - t0, "source_hash": hashlib.sha256(repr(rs).encode()).hexdigest()[:16], "used_contracts": [], "inlined": [], "queries": 0, "property": pid,
+                    "render_state": rs}
         t = LemmaTask(c, cfg) if getattr(c, "is_lemma", False) else VerifyTask(c, cfg)
         t.name = f"{pid}/{c.target.split(':')[1]}" if not getattr(c, "is_lemma", False) else f"{pid}/{c.target}"
         orig_init = Explorer.__init__
@@ -244,7 +257,9 @@ def check_property(pid, tier="quick", seed=0, manifest_level="proof", jobs=None,
                 bad = next(o for o in group if o["status"] == "failed")
                 rp = {"property": pid, "kind": "deductive", "obligation": name, "function": r["target"], "source_sha256_16": r["source_hash"], "solver_output": bad.get("detail"), "model": _jsonable(bad.get("model")), "path": bad.get("path")}
                 outcome = {"outcome": "no-model"}
-                if bad.get("model") is not None and c is not None and getattr(c, "replayable", True):
+                if bad.get("kind") == "static":
+                    outcome = {"outcome": "static-obligation", "detail": bad.get("detail")}
+                elif bad.get("model") is not None and c is not None and getattr(c, "replayable", True):
                     outcome = native_replay(c, bad["model"])
                 rp["replay"] = outcome
                 fn = os.path.join("replay", pid, name.replace("/", "__").replace("@", "_at_").replace(":", "_")[:150] + ".json")
